@@ -25,7 +25,7 @@ Record pmu_world := { pmu_c : pmu_core; pmu_memo_tab : list (nat * list pm_entry
 
 (* pmu_memo: HasPermission iterates a member derived from `permissions` at first use; pmu_invalidate: assigning the
    attribute drops that member; pmu_sticky: the user resolved from the Authorization header is stored in m_ApiUser.
-   This tree: all three false (PmFacts.pmu_cfg_tree, tied to the source facts). *)
+   This tree: all three false (PmUsersFacts.pmu_cfg_tree, tied to the source facts). *)
 Record pmu_cfg := { pmu_memo : bool; pmu_invalidate : bool; pmu_sticky : bool }.
 
 Definition pmu_get (c : pmu_core) (id : nat) : option pmu_rec := nth_error (pmu_heap c) id.
